@@ -497,12 +497,12 @@ end Expect
   propagation) = attrJoin / marshalL / marshalK, tied through the interface
   Canonicalable by `marshal_tie` for every value json.Decoder can yield;
   Object.Sort = sortL (the comparator is the bytewise order of the keys, which
-  on UTF-8 is the code-point order `ltS`); the two condition-controlled loops
+  on UTF-8 is the code-point order `ltS`); escapedUnit = the model
+  (`src_escapedUnit`); the two condition-controlled loops
   never run out of fuel.
   NOT proved for all arguments (examples and a small exhaustive alphabet only:
   `src_check_examples`, `src_checkEncoding_small`, `src_encodeString_rejects`):
     ∀ raw, (Src.checkEncoding raw).isNone = C14n.checkEncoding raw
-    ∀ b, Src.escapedUnit b = (C14n.escapedUnit b).elim (-1) Int.ofNat
     ∀ s with a non-scalar element, (Src.encodeString (utf8s s)).2.isSome
 -/
 namespace Src
@@ -752,6 +752,45 @@ theorem marshal_tie (v : J) (hw : v.wf = true) (hs : strsHave (fun c => !isScala
 example : J.wf (.obj (.cons [97] (.atom .null) (.cons [0xE9] (.arr (.cons (.atom (.flt true [1, 5] 0)) .nil)) .nil))) = true ∧
     strsHave (fun c => !isScalar c) (.obj (.cons [97] (.atom .null) (.cons [0xE9] (.arr (.cons (.atom (.flt true [1, 5] 0)) .nil)) .nil))) = false := by
   decide
+
+/-! ### escapedUnit -/
+
+/-- escapedUnit as it is now = the model (`none` is Go's -1), for all arguments -/
+theorem src_escapedUnit (data : Bytes) :
+    C14nSrc.escapedUnit data = match C14n.escapedUnit data with
+      | some u => ((u : Nat) : Int)
+      | none => -1 := by
+  unfold C14nSrc.escapedUnit
+  simp only [Id.run, show Int.toNat 0 = 0 from rfl, show Int.toNat 1 = 1 from rfl]
+  match data with
+  | [] => simp [C14n.escapedUnit, GoSem.id_pure]
+  | [_] => simp [C14n.escapedUnit, GoSem.id_pure]
+  | [_, _] => simp [C14n.escapedUnit, GoSem.id_pure]
+  | [_, _, _] => simp [C14n.escapedUnit, GoSem.id_pure]
+  | [_, _, _, _] => simp [C14n.escapedUnit, GoSem.id_pure]
+  | [_, _, _, _, _] => simp [C14n.escapedUnit, GoSem.id_pure]
+  | a0 :: a1 :: a :: b :: c :: d :: rest =>
+    have hsl : slice (a0 :: a1 :: a :: b :: c :: d :: rest) 2 6 = [a, b, c, d] := by simp [slice]
+    rw [hsl]
+    by_cases h0 : a0 = 92
+    · by_cases h1 : a1 = 117
+      · subst h0; subst h1
+        have hlen : ¬ (((92 :: 117 :: a :: b :: c :: d :: rest).length : Int) < 6) := by simp; omega
+        simp only [hlen, List.getElem!_cons_zero, List.getElem!_cons_succ, ne_eq, not_true_eq_false, or_self, if_false]
+        refine (hex_wrap _ (by intros; rfl) _ _ (by intro s; rcases s with ⟨_ | _, _⟩ <;> rfl)).trans ?_
+        simp only [hexFold, C14n.escapedUnit]
+        cases hexDigit a <;> cases hexDigit b <;> cases hexDigit c <;> cases hexDigit d <;> simp
+      · have hg : (((92 :: a1 :: a :: b :: c :: d :: rest).length : Int) < 6 ∨ (92 :: a1 :: a :: b :: c :: d :: rest)[0]! ≠ 92) ∨
+            (92 :: a1 :: a :: b :: c :: d :: rest)[1]! ≠ 117 := by
+          right; simpa using h1
+        subst h0
+        simp only [hg, if_true, GoSem.id_pure]
+        rw [escapedUnit_guard _ _ _ _ _ _ _ (Or.inr h1)]
+    · have hg : (((a0 :: a1 :: a :: b :: c :: d :: rest).length : Int) < 6 ∨ (a0 :: a1 :: a :: b :: c :: d :: rest)[0]! ≠ 92) ∨
+          (a0 :: a1 :: a :: b :: c :: d :: rest)[1]! ≠ 117 := by
+        left; right; simpa using h0
+      simp only [hg, if_true, GoSem.id_pure]
+      rw [escapedUnit_guard _ _ _ _ _ _ _ (Or.inl h0)]
 
 /-! ### Object.Sort -/
 
